@@ -654,17 +654,18 @@ Proof.
     repeat match goal with H : (_ && _) = true |- _ => apply andb_true_iff in H; destruct H end. lia.
 Qed.
 
-(* ------------------------------------------------------------------ from_scipy_sparse: the promise fails *)
+(* ------------------------------------------------------------------ from_scipy_sparse *)
 
-(* scipy.sparse.csr_matrix([[0,1,0,0,0],[1,0,0,0,1]]) @ csr_matrix(5x5): what SciPy returns *)
+(* scipy.sparse.csr_matrix([[0,1,0,0,0],[1,0,0,0,1]]) @ csr_matrix(5x5): what SciPy returns — valid for
+   SciPy, not well formed as a GCXS: why from_scipy_sparse must canonicalise (it does since fix c3f2e26) *)
 Definition scipy_product : gcxs Z :=
   mkGCXS [2; 5] [0] [2; 3; 1; 3; -1; 1; -2; -1; 3] [4; 3; 1; 0; 2; 1; 0; 4; 3] [0; 4; 9] 0.
 
-Theorem from_scipy_promise_refuted_proof :
-  exists m : gcxs Z, scipy_valid m = true /\ gcxs_wfb (gcxs_from_scipy m) = false.
-Proof. exists scipy_product. split; vm_compute; reflexivity. Qed.
+Example scipy_rows_need_sorting :
+  scipy_valid scipy_product = true /\ gcxs_wfb (gcxs_from_scipy scipy_product) = false.
+Proof. split; vm_compute; reflexivity. Qed.
 
-(* ... and holds exactly when SciPy's matrix has sorted, duplicate-free rows *)
+(* storing the arrays of a SciPy matrix with sorted, duplicate-free rows gives a well-formed GCXS *)
 Theorem from_scipy_partial_proof (m : gcxs Z) :
   scipy_valid m = true ->
   forallb strictly_increasing (rows_of (g_indices m) (g_indptr m)) = true ->
